@@ -1,11 +1,94 @@
 package c09
 
-import "verif/harness/internal/core"
+import (
+	"go/ast"
+	"go/parser"
+	"go/token"
+	"path/filepath"
+	"reflect"
+	"runtime"
+
+	"github.com/caddyserver/caddy/v2/modules/caddyhttp/reverseproxy"
+
+	"verif/harness/internal/core"
+)
 
 func (p *prop) runStress(line string, f []string) core.Outcome {
 	return core.Outcome{Impl: "bad-op", Tags: []string{"bad-op", "trivial"}}
 }
 
+// callText renders x.y.z(…lit…) call expressions of the two statements we look for.
+func callText(e ast.Expr) string {
+	c, ok := e.(*ast.CallExpr)
+	if !ok || len(c.Args) != 1 {
+		return ""
+	}
+	var sel func(ast.Expr) string
+	sel = func(e ast.Expr) string {
+		switch v := e.(type) {
+		case *ast.Ident:
+			return v.Name
+		case *ast.SelectorExpr:
+			return sel(v.X) + "." + v.Sel.Name
+		}
+		return "?"
+	}
+	arg := ""
+	switch a := c.Args[0].(type) {
+	case *ast.BasicLit:
+		arg = a.Value
+	case *ast.UnaryExpr:
+		if l, ok := a.X.(*ast.BasicLit); ok {
+			arg = a.Op.String() + l.Value
+		}
+	}
+	return sel(c.Fun) + "(" + arg + ")"
+}
+
+// runStatic checks the syntactic premise of theorem dec_on_every_exit in the source the
+// harness was built from: `reverseProxy` starts with countRequest(1) immediately followed by
+// `defer …countRequest(-1)` on the same Host, so the decrement runs on every exit, panics included.
 func (p *prop) runStatic(line string, f []string) core.Outcome {
-	return core.Outcome{Impl: "bad-op", Tags: []string{"bad-op", "trivial"}}
+	if len(f) != 2 || f[1] != "defer" {
+		return core.Outcome{Impl: "bad-op", Tags: []string{"bad-op", "trivial"}}
+	}
+	file, _ := runtime.FuncForPC(reflect.ValueOf(reverseproxy.GetDialInfo).Pointer()).FileLine(0)
+	src := filepath.Join(filepath.Dir(file), "reverseproxy.go")
+	fs := token.NewFileSet()
+	af, err := parser.ParseFile(fs, src, nil, 0)
+	if err != nil {
+		return core.Outcome{Impl: "infra", Tags: []string{"infra"}, Failures: []core.Failure{{Class: "harness-infra", What: err.Error()}}}
+	}
+	found, good := false, false
+	for _, d := range af.Decls {
+		fd, ok := d.(*ast.FuncDecl)
+		if !ok || fd.Name.Name != "reverseProxy" || fd.Recv == nil || fd.Body == nil {
+			continue
+		}
+		found = true
+		b := fd.Body.List
+		if len(b) >= 2 {
+			first := ""
+			switch s := b[0].(type) {
+			case *ast.AssignStmt:
+				if len(s.Rhs) == 1 {
+					first = callText(s.Rhs[0])
+				}
+			case *ast.ExprStmt:
+				first = callText(s.X)
+			}
+			second := ""
+			if ds, ok := b[1].(*ast.DeferStmt); ok {
+				second = callText(ds.Call)
+			}
+			good = first == "di.Upstream.Host.countRequest(1)" && second == "di.Upstream.Host.countRequest(-1)"
+		}
+	}
+	o := core.Outcome{Impl: "defer-ok", Tags: []string{"static-defer"}}
+	if !found || !good {
+		o.Impl = "defer-missing"
+		o.Failures = []core.Failure{{Class: "decrement-not-deferred",
+			What: "reverseProxy no longer begins with countRequest(1) immediately followed by `defer countRequest(-1)` on the same Host: an exit path (panic, early return) can leave the in-flight count raised"}}
+	}
+	return o
 }
